@@ -30,7 +30,7 @@ const (
 	siteRdAdvance
 	siteRdOther
 	siteOpBoundary
-	sitePO // a no-op parser.ParseOption of the harness: inside the prologue of Parse
+	sitePO       // a no-op parser.ParseOption of the harness: inside the prologue of Parse
 	siteHookBase // + 4*once + {enter,begin,end,done}
 )
 
